@@ -340,6 +340,7 @@ func trimTo(s string, n int) string {
 func runShard(o DriveOpts, p *Property, bin, work string, shard, n, timeoutS int) *shardResult {
 	res := &shardResult{shard: shard, sum: &Summary{Counters: map[string]int64{}, Exhaustive: map[string]Exhaustive{}}}
 	from := 0
+	abandons := 0
 	hashset := map[string]struct{}{}
 	for attempt := 0; ; attempt++ {
 		out := filepath.Join(work, fmt.Sprintf("s%d-a%d.jsonl", shard, attempt))
@@ -395,6 +396,13 @@ func runShard(o DriveOpts, p *Property, bin, work string, shard, n, timeoutS int
 		if lastEnded == -2 {
 			// the worker abandoned the case on purpose (its verdict is already in the stream)
 			from = lastBegun + 1
+			abandons++
+			if abandons >= 3 {
+				// the non-termination is established; every further stuck case costs a watchdog period
+				res.exitNotes = nil
+				res.notes = append(res.notes, fmt.Sprintf("shard %d: stopped after %d abandoned (non-terminating) cases; the remaining cases of this shard were not run", shard, abandons))
+				return res
+			}
 			if attempt >= o.MaxRestart {
 				res.exitNotes = append(res.exitNotes, fmt.Sprintf("shard %d: restart limit reached", shard))
 				return res
